@@ -120,7 +120,7 @@ static int enabled_ops(op_t *o, int max) {
         }
     }
     if (P.groups & G_ENV) { for (int k = 0; k < 3; k++) if (shim_timers_armed() || 1) { if (k < 2 || (P.groups & G_TICK)) EMIT(O_ADVANCE, k); } }
-    if ((P.groups & G_FAULT) && dev < P.maxdev) { if (!shim_inject_write_eagain) EMIT(O_INJECT, INJ_WRITE_EAGAIN); }
+    if ((P.groups & G_FAULT) && dev < P.maxdev) { if (!shim_inject_write_eagain) for (int k = 0; k < P.nmods; k++) EMIT(O_INJECT, INJ_WRITE_EAGAIN, k); }
     if ((P.groups & G_EPOLLFAULT) && dev < P.maxdev && CX.looping && !shim_inject_epoll_errno) { EMIT(O_INJECT, INJ_EPOLL_EINTR); EMIT(O_INJECT, INJ_EPOLL_EBADF); }
     if (P.groups & G_READY) for (int k = 0; k < NUFD; k++) if (UFD[k].open_rd && UFD[k].bytes < 2) { int used = 0; for (int t = 0; t < NM; t++) if (find_src(t, K_FD, k) >= 0) used = 1; if (used) EMIT(O_READY, k); }
     if (P.groups & G_REFS) for (int i = 0; i < nret; i++) EMIT(O_RELEASE, i);
@@ -164,7 +164,7 @@ static void fmt_op(op_t op, char *b, size_t cap) {
     case O_ARM: snprintf(b, cap, "arm(%s.%s: %s %d)", A, CBN[(op.b >> 5) & 3], AN[(op.b & 31) < A_MAX ? (op.b & 31) : 0], op.d); break;
     case O_READY: snprintf(b, cap, "make_readable(fd%d)", op.a); break;
     case O_ADVANCE: snprintf(b, cap, "advance(%luns)", (unsigned long)ADV[op.a & 3]); break;
-    case O_INJECT: snprintf(b, cap, "inject(%s)", op.a == 0 ? "next pipe write -> EAGAIN" : op.a == 1 ? "next epoll_wait -> EINTR" : "next epoll_wait -> EBADF"); break;
+    case O_INJECT: snprintf(b, cap, "inject(%s)", op.a == 0 ? (op.b == 0 ? "next pipe write -> EAGAIN" : op.b == 1 ? "2nd next pipe write -> EAGAIN" : "3rd next pipe write -> EAGAIN") : op.a == 1 ? "next epoll_wait -> EINTR" : "next epoll_wait -> EBADF"); break;
     case O_RELEASE: snprintf(b, cap, "release_event(%d)", op.a); break;
     default: snprintf(b, cap, "op%d(%d,%d,%d)", op.c, op.a, op.b, op.d);
     }
@@ -208,7 +208,7 @@ static void check_quiescent_obligations(void) {
     for (int s = 0; s < NM; s++) { mod_t *m = &MD[s]; if (!m->present || m->st != S_RUNNING) continue;
         int haslow = 0; for (int k = 0; k < NPAT; k++) if (m->sub[k].present && m->sub[k].prio == PR_LOW) haslow = 1;
         if (m->batch_size == 0 && m->batch_tmo == 0 && !haslow && !m->ever_batched) {
-            if (ON(R_PS)) for (int k = 0; k < m->nmb; k++) if (!m->mb[k].optional && m->mb[k].kind == 0 && MSG[m->mb[k].msg].topic != T_PILL)
+            if (ON(R_PS)) for (int k = 0; k < m->nmb; k++) if (!m->mb[k].optional && m->mb[k].kind == 0 && MSG[m->mb[k].msg].topic != T_PILL && !owed_excused(m->mb[k].msg))
                 vfail("PS.owed", MSG[m->mb[k].msg].sys ? "PS.owed|quiescent-sys" : "PS.owed|quiescent", "dispatch no longer delivers anything but message #%d (topic %s) owed to RUNNING module %s was never handed over",
                       m->mb[k].msg, MSG[m->mb[k].msg].topic < NTOPIC ? TOPIC[MSG[m->mb[k].msg].topic] : "-", m->name);
         } else if (ON(R_BA) && !m->ba_unsure) {
